@@ -379,6 +379,10 @@ class RF:
     def subs(self, mapping: Dict[str, 'RF']) -> 'RF':
         return _subs_poly(self.num, mapping) / _subs_poly(self.den, mapping)
 
+    def map_atoms(self, f) -> 'RF':
+        """Rebuild with ``f(atom) -> RF | None`` applied bottom-up (None keeps the atom)."""
+        return _map_poly(self.num, f) / _map_poly(self.den, f)
+
     def evalf(self, env: Optional[Dict[str, float]] = None) -> float:
         env = dict(env or {})
         env.setdefault('pi', math.pi)
@@ -592,6 +596,34 @@ def _subs_poly(p: Poly, mapping: Dict[str, RF]) -> RF:
         for aid, e in mono:
             if aid not in cache:
                 cache[aid] = _subs_atom(ATOMS[aid], mapping)
+            term = term * (cache[aid] ** e)
+        total = total + term
+    return total
+
+
+def _map_atom(a: Atom, f) -> RF:
+    if a.kind == 'sym':
+        r = f(a)
+        return r if r is not None else RF(Poly.atom(a))
+    if a.kind == 'fn':
+        rebuilt = fn(a.name, *[x.map_atoms(f) for x in a.args])
+        at = rebuilt.as_atom()
+        if at is not None:
+            r = f(at)
+            if r is not None:
+                return r
+        return rebuilt
+    return _map_poly(a.base, f)
+
+
+def _map_poly(p: Poly, f) -> RF:
+    total = RF(Poly())
+    cache: Dict[int, RF] = {}
+    for mono, c in p.terms.items():
+        term = RF.const(c)
+        for aid, e in mono:
+            if aid not in cache:
+                cache[aid] = _map_atom(ATOMS[aid], f)
             term = term * (cache[aid] ** e)
         total = total + term
     return total
